@@ -31,6 +31,7 @@ fn profile(thorough: bool) -> Profile {
         keygen: 9,
         refresh: 9,
         encaps: 6,
+        encaps_wide: 2,
         encaps_for: 9,
         check: 4,
         roundtrip: 22,
